@@ -65,7 +65,8 @@ def execute_guarded(prop, sc, limit_s=90):
     except Exception as e:  # noqa: BLE001
         if ops.in_repo(e):
             tb = traceback.extract_tb(e.__traceback__)
-            where = f"{os.path.basename(tb[-1].filename)}:{tb[-1].name}"
+            inner = [fr for fr in tb if os.path.abspath(fr.filename).startswith(ops.CSVPATH_HOME)] or tb
+            where = f"{os.path.basename(inner[-1].filename)}:{inner[-1].name}"
             out = {
                 "violations": [
                     {
